@@ -3,7 +3,9 @@
 package reorg
 
 import (
+	"encoding/json"
 	"fmt"
+	"hash/fnv"
 	"math/big"
 	"regexp"
 	"sort"
@@ -184,6 +186,21 @@ func applyVariant(specs []simeth.BlockSpec, variant string, lo int) []simeth.Blo
 		panic("variant " + variant)
 	}
 	return specs
+}
+
+// uniqueName gives the declaration a name derived from its content (everything but name and sources): within one
+// worker process the same integration name always means the same declaration. The code under test may keep
+// per-name state in package-level variables (e.g. compiled destinations); with content-derived names a case never
+// depends on which other jobs ran before it in the same process, so every case is self-contained and replayable.
+func uniqueName(d *world.Decl, base string) {
+	d.Name = ""
+	m := d.Integration()
+	delete(m, "name")
+	delete(m, "sources")
+	b, _ := json.Marshal(m)
+	h := fnv.New32a()
+	h.Write(b)
+	d.Name = fmt.Sprintf("%s_%08x", base, h.Sum32())
 }
 
 // ---- small helpers ------------------------------------------------------------------------------
